@@ -4,6 +4,7 @@ pub mod c03;
 pub mod c05;
 pub mod c08;
 pub mod c10;
+pub mod c11;
 pub mod c16;
 
 use crate::runner::Scenario;
@@ -12,6 +13,8 @@ pub fn scenario(id: &str) -> Option<Box<dyn Scenario>> {
     Some(match id {
         "C01" => Box::new(c01::C01),
         "C16" => Box::new(c16::C16),
+        "C11" => Box::new(c11::C11),
+        "C14" => Box::new(c11::C14),
         "C08" => Box::new(c08::C08),
         "C13" => Box::new(c08::C13),
         "C04" => Box::new(c08::C04),
